@@ -95,6 +95,11 @@ CHECKS["C18"] = dict(
    text="Random environments (0..20 variables, arbitrary Unicode values) plus a planted secret are given to the real binary with a cleared environment; generated programs read set and unset names (bare and quoted selectors; top level, function, module, format expression, through a binding) in strict mode and with --no-strict; the JSON artifact must equal the value set, unset names must fail naming the variable (strict) or be null, no output may contain the secret or other variables' values; `let env` must be rejected and fields named env must resolve to the field.",
    note="The JSON artifact is decoded with serde_json (its correctness is C03's subject).",
    ref="DESIGN.md section 5 C18")
+CHECKS["C20"] = dict(
+   technique="stateful property-based testing of the real `ucg lsp` over stdio: generated message histories with a liveness check, a range-validity predicate, a differential against a fresh server on the current texts, and differentials against the compiler's parser and build",
+   text="Sessions of 1..30 messages over 1..3 documents (two unsaved buffers, one file also on disk, two library files) with generated programs, hand-written lines (imports, non-ASCII, multi-line), token mutations, soups, arbitrary UTF-8/CRLF and blank texts; request positions anywhere incl. beyond the text and at u32 extremes. After every message: server alive, request answered without error, every reported range inside the text it names (UTF-16), diagnostics equal to a fresh server's on the current texts, equal to the compiler's parser verdict and position on a syntax error, empty when the compiler builds the text; every answer equal to the fresh server's; didClose clears diagnostics.",
+   note="A one-character marker range may stick out of its line by one (ucg marks positions that way); lone CR and self-imports are not generated; no answer within 30 s is inconclusive (exit 2).",
+   ref="DESIGN.md section 5 C20")
 CHECKS["C09"] = dict(
    technique="property-based model-based testing of the CLI on generated project trees (path-resolution / evaluate-once / cycle model)",
    text="Generated projects of 2..8 files in nested directories with random DAG or cyclic import graphs, import expressions at 13 syntactic positions and paths in several equivalent spellings are built by the real binary from four working directories / argument spellings; for DAGs the artifact must hold the sum the generator computed and stderr exactly one TRACE line per reachable file; for cyclic graphs every run must exit 1 with a cycle diagnostic, never crash or hang.",
